@@ -1732,7 +1732,7 @@ static void check_mt_support(EbDecHandle *dec_handle_ptr) {
     }
 }
 
-void read_uncompressed_header(Bitstrm *bs, EbDecHandle *dec_handle_ptr, ObuHeader *obu_header,
+EbErrorType read_uncompressed_header(Bitstrm *bs, EbDecHandle *dec_handle_ptr, ObuHeader *obu_header,
                               int num_planes) {
     SeqHeader *  seq_header = &dec_handle_ptr->seq_header;
     FrameHeader *frame_info = &dec_handle_ptr->frame_header;
@@ -1766,9 +1766,11 @@ void read_uncompressed_header(Bitstrm *bs, EbDecHandle *dec_handle_ptr, ObuHeade
                 PRINT_FRAME("display_frame_id", display_frame_id);
                 if (display_frame_id != frame_info->ref_frame_idx[frame_to_show_map_idx] &&
                     frame_info->ref_valid[frame_to_show_map_idx] == 1)
-                    return; // EB_Corrupt_Frame;
+                    return EB_Corrupt_Frame;
             }
 
+            if (dec_handle_ptr->ref_frame_map[frame_to_show_map_idx] == NULL)
+                return EB_Corrupt_Frame; /* nothing was ever stored in that slot */
             dec_handle_ptr->cur_pic_buf[0] = dec_handle_ptr->ref_frame_map[frame_to_show_map_idx];
             frame_info->frame_type         = dec_handle_ptr->cur_pic_buf[0]->frame_type;
 
@@ -1789,7 +1791,7 @@ void read_uncompressed_header(Bitstrm *bs, EbDecHandle *dec_handle_ptr, ObuHeade
             dec_handle_ptr->show_existing_frame = frame_info->show_existing_frame;
             dec_handle_ptr->show_frame          = frame_info->show_frame;
             dec_handle_ptr->showable_frame      = frame_info->showable_frame;
-            return;
+            return EB_ErrorNone;
         }
 
         frame_info->frame_type = dec_get_bits(bs, 2);
@@ -1856,7 +1858,7 @@ void read_uncompressed_header(Bitstrm *bs, EbDecHandle *dec_handle_ptr, ObuHeade
                 : (1 << id_len) + frame_info->current_frame_id - prev_frame_id;
             // Bitstream conformance
             if (frame_info->current_frame_id == prev_frame_id || diff_frame_id >= 1 << (id_len - 1))
-                return; // EB_Corrupt_Frame;
+                return EB_Corrupt_Frame;
         }
 
         //mark_ref_frames( id_len )
@@ -1971,6 +1973,9 @@ void read_uncompressed_header(Bitstrm *bs, EbDecHandle *dec_handle_ptr, ObuHeade
                 dec_handle_ptr->remapped_ref_idx[i] = frame_info->ref_frame_idx[i];
             }
             int ref_frm_id = dec_handle_ptr->remapped_ref_idx[i];
+            if (ref_frm_id < 0 || ref_frm_id >= REF_FRAMES ||
+                dec_handle_ptr->ref_frame_map[ref_frm_id] == NULL)
+                return EB_Corrupt_Frame; /* inter frame refers to a reference that does not exist */
 
             frame_info->ref_frame_sign_bias[LAST_FRAME + i] = 0;
 
@@ -1983,7 +1988,7 @@ void read_uncompressed_header(Bitstrm *bs, EbDecHandle *dec_handle_ptr, ObuHeade
                                               (1 << id_len));
                 if (expected_frame_id != frame_info->ref_frame_id[ref_frm_id]) {
                     assert(0);
-                    return; // EB_Corrupt_Frame;
+                    return EB_Corrupt_Frame;
                 }
             }
         }
@@ -2010,6 +2015,7 @@ void read_uncompressed_header(Bitstrm *bs, EbDecHandle *dec_handle_ptr, ObuHeade
                 "Reference frame containing this frame's initial "
                 "frame context is unavailable.");
             assert(0);
+            return EB_Corrupt_Frame;
         }
         if (frame_info->error_resilient_mode || !seq_header->order_hint_info.enable_ref_frame_mvs)
             frame_info->use_ref_frame_mvs = 0;
@@ -2030,6 +2036,7 @@ void read_uncompressed_header(Bitstrm *bs, EbDecHandle *dec_handle_ptr, ObuHeade
             if ((!av1_is_valid_scale(ref_scale_factors))) {
                 SVT_LOG("\n Reference frame has invalid dimensions \n");
                 assert(0);
+                return EB_Corrupt_Frame;
             }
         }
     }
@@ -2044,6 +2051,8 @@ void read_uncompressed_header(Bitstrm *bs, EbDecHandle *dec_handle_ptr, ObuHeade
         dec_handle_ptr->dec_config.max_color_format = EB_YUV444;
 
     dec_handle_ptr->cur_pic_buf[0] = dec_pic_mgr_get_cur_pic(dec_handle_ptr);
+    if (dec_handle_ptr->cur_pic_buf[0] == NULL)
+        return EB_ErrorInsufficientResources;
 
     svt_setup_frame_buf_refs(dec_handle_ptr);
     /*Temporal MVs allocation */
@@ -2169,6 +2178,7 @@ void read_uncompressed_header(Bitstrm *bs, EbDecHandle *dec_handle_ptr, ObuHeade
         if (!frame_info->show_existing_frame)
             svt_setup_motion_field(dec_handle_ptr, NULL);
     }
+    return EB_ErrorNone;
 }
 
 EbErrorType read_frame_header_obu(Bitstrm *bs, EbDecHandle *dec_handle_ptr, ObuHeader *obu_header,
@@ -2179,7 +2189,9 @@ EbErrorType read_frame_header_obu(Bitstrm *bs, EbDecHandle *dec_handle_ptr, ObuH
     uint32_t start_position, end_position, header_bytes;
 
     start_position = get_position(bs);
-    read_uncompressed_header(bs, dec_handle_ptr, obu_header, num_planes);
+    status = read_uncompressed_header(bs, dec_handle_ptr, obu_header, num_planes);
+    if (status != EB_ErrorNone)
+        return status;
 
     if (allow_intrabc(dec_handle_ptr)) {
         svt_av1_setup_scale_factors_for_frame(&dec_handle_ptr->sf_identity,
@@ -2558,6 +2570,8 @@ EbErrorType decode_multiple_obu(EbDecHandle *dec_handle_ptr, uint8_t **data, siz
         case OBU_FRAME_HEADER:
         case OBU_REDUNDANT_FRAME_HEADER:
         case OBU_FRAME:
+            if (!dec_handle_ptr->mem_init_done)
+                return EB_Corrupt_Frame; /* frame data before any sequence header: no contexts exist yet */
             if (obu_header.obu_type == OBU_FRAME) {
                 PRINT_NAME("**************OBU_FRAME*******************");
                 dec_handle_ptr->show_existing_frame = 0;
@@ -2573,6 +2587,10 @@ EbErrorType decode_multiple_obu(EbDecHandle *dec_handle_ptr, uint8_t **data, siz
                 dec_handle_ptr->seen_frame_header = 1;
                 status                            = read_frame_header_obu(
                     &bs, dec_handle_ptr, &obu_header, obu_header.obu_type != OBU_FRAME);
+                if (status != EB_ErrorNone) {
+                    dec_handle_ptr->seen_frame_header = 0;
+                    return status;
+                }
             }
             /*else {
                  For OBU_REDUNDANT_FRAME_HEADER, previous frame_header is taken from dec_handle_ptr->frame_header
